@@ -33,6 +33,7 @@ type Engine struct {
 	actorChecked  bool // effects.go
 	actorBad      []string
 	recCalls      map[string]bool // effects.go: functions whose calls are recorded for lastcall()
+	onceChecked   map[string]error // onceinv.go (x-c17)
 	projLits      map[string]bool // captproj.go (x-c17): literals whose captured variables are projected
 }
 
